@@ -189,6 +189,8 @@ def directed_cases():
     yield ("wi", "args", ("fut", "fut"), ("c", "r"), (0, 1), 0, 0b111)
     yield ("wt", "single", ("fut",), ("c",), (0,), 0, ("rel", None))
     yield ("wt", "single", ("fut",), ("c",), (0,), 1, ("rel", None))
+    # the same future passed twice to WaitIterator, everything already done, consumer drains
+    yield ("wi", "dupargs", ("fut", "fut"), ("r", "r"), (0, 1), 2, 0b1)
 
 
 # --------------------------------------------------------------------------
